@@ -422,7 +422,9 @@ func judge(r *Run, id int, what string, res mutRes, inputLen int, zwKey string, 
 func c06FixedFamily(r *Run) {
 	field := func(name string, t *GT) GF { return GF{Name: "F0", Exported: true, JSON: name, T: t} }
 	one := func(t *GT) *GT { return &GT{Kind: "struct", Fields: []GF{field("v", t)}} }
-	rec := func(ft string) string { return `{"type":"record","name":"Fam","fields":[{"name":"v","type":` + ft + `}]}` }
+	rec := func(ft string) string {
+		return `{"type":"record","name":"Fam","fields":[{"name":"v","type":` + ft + `}]}`
+	}
 	type fam struct {
 		schema string
 		g      *GT
@@ -631,6 +633,15 @@ func runC06(r *Run) {
 	var times [][]byte
 	for _, base := range []string{"2006-01-02T13:37:42.326876123+08:21", "2006-01-02T13:37:42Z", "1970-01-01", "2006-01-02T13:37:42,5Z"} {
 		times = append(times, mutants(r, []byte(base), r.N(150, 1500))...)
+	}
+	// zone offsets of every size the two-digit grammar admits, both signs, several spellings
+	for _, hh := range []int{0, 1, 12, 13, 14, 23, 24, 25, 30, 59, 60, 99} {
+		for _, mm := range []int{0, 1, 30, 59, 60, 99} {
+			for _, sign := range []string{"+", "-"} {
+				times = append(times, []byte(fmt.Sprintf("2006-01-02T13:37:42%s%02d:%02d", sign, hh, mm)),
+					[]byte(fmt.Sprintf("2006-01-02T13:37:42.5%s%02d%02d", sign, hh, mm)))
+			}
+		}
 	}
 	for k, rr := range runBatch(mutReq{Inputs: times, Mode: "time"}) {
 		r.Count("time/" + rr.Class)
